@@ -27,6 +27,7 @@ def expand(a, x, n, dirn, rng=None):
     if L >= 2:
         for per in (False, True):
             out.append({"fn": "append", "x": X, "y": A, "periodic": per})
+            out.append({"fn": "append", "x": X, "y": A, "periodic": per, "pflag": "np" if L % 2 else "int"})
     out.append({"fn": "integral", "x": X, "y": A})
     for k in range(0, L + 1):
         out.append({"fn": "sum_over", "a": A, "idx": [0, k, L] if k % 2 == 0 else [k, L]})
@@ -62,7 +63,7 @@ def run():
     if c.replay_path:
         import json
         ev = json.load(open(c.replay_path))["event"]
-        cases = [{k: v for k, v in ev.items() if k in ("fn", "a", "x", "y", "n", "num", "dir", "lstart", "rstop", "periodic", "idx", "sets")}]
+        cases = [{k: v for k, v in ev.items() if k in ("fn", "a", "x", "y", "n", "num", "dir", "lstart", "rstop", "periodic", "idx", "sets", "pflag")}]
         if ev["fn"] == "interval":
             cases[0]["get_ij"] = [g[:2] for g in ev["gets"]]
     evs = c.run_cases(cases, execute)
